@@ -33,6 +33,15 @@ func (x *Exec) step(st *State, in ssa.Instruction) {
 		f.regs[in] = mkT("Int", r.S, in.Type())
 	case *ssa.Store:
 		a := x.addrOf(st, x.eval(st, in.Addr), in.Addr.Type(), in.Pos())
+		if sl, ok := in.Val.(*ssa.Slice); ok && a.Ref != nil {
+			if _, isSlice := sl.X.Type().Underlying().(*types.Slice); isSlice {
+				if _, owned := x.eval(st, sl.X).(*Owned); !owned {
+					// side condition of the immutable-sequence idealisation (A-seq): a re-sliced view stored in the heap keeps the
+					// backing array of the original alive, so a later append may write through it
+					x.unsupported(st, in.Pos(), "a re-sliced slice is stored in the heap (it shares its backing array with the original: outside the immutable-sequence idealisation)")
+				}
+			}
+		}
 		x.store(st, a, x.eval(st, in.Val), in.Pos())
 	case *ssa.UnOp:
 		xv := x.eval(st, in.X)
